@@ -70,6 +70,15 @@ class CT(Term):
         return self._mk("blank", self, ~cond if isinstance(cond, CT) else cond)
 
     def dropna(self): return self._mk("dropna", self)
+    def count(self): return self._mk("count", self)
+
+    @property
+    def size(self): return self._mk("size", self)
+
+    @property
+    def shape(self): return _Shape(self)
+
+    def _abs_len(self): return self._mk("size", self)
 
     def replace(self, a, b=None, **k):
         if k or isinstance(a, (dict, list, CT)):
@@ -143,6 +152,18 @@ class CT(Term):
         return self._oracle.choose(self.key())
 
 
+class _Shape(Stub):
+    """series.shape: only its first entry (the number of rows) is meaningful."""
+
+    def __init__(self, of: CT):
+        self._of = of
+
+    def __getitem__(self, i):
+        if i == 0:
+            return self._of._mk("size", self._of)
+        raise Unsupported("shape[...] other than shape[0] of a recording column")
+
+
 def _arg(x):
     if isinstance(x, Term):
         return x
@@ -157,18 +178,39 @@ def _arg(x):
 
 
 class CFrame(Stub):
-    def __init__(self, columns, oracle=None):
-        self._columns, self._oracle = list(columns), oracle
+    """A recording frame: columns are symbols; row-dropping frame operations (dropna, mask selection) are part of the columns' names, so a
+    column read after them is a different term from the plain column."""
+
+    def __init__(self, columns, oracle=None, via: str = ""):
+        self._columns, self._oracle, self._via = list(columns), oracle, via
 
     def _col(self, c):
         if c not in self._columns:
             raise InterpRaised("KeyError", str(c))
-        return CT(f"col:{c}", oracle=self._oracle)
+        return CT(f"col:{c}{self._via}", oracle=self._oracle)
 
     def __getitem__(self, c):
         if isinstance(c, str):
             return self._col(c)
-        raise Unsupported("frame[...] with a non-column key on the recording frame")
+        if isinstance(c, list) and all(isinstance(x, str) for x in c):
+            return CFrame(c, self._oracle, self._via)
+        if isinstance(c, CT):
+            return CFrame(self._columns, self._oracle, self._via + f"@rows[{c.key()}]")
+        raise Unsupported("frame[...] with a key that is neither a column, a column list nor a recording mask")
+
+    def dropna(self, **k):
+        args = ", ".join(f"{a}={v!r}" for a, v in sorted(k.items()))
+        return CFrame(self._columns, self._oracle, self._via + f"@dropna({args})")
+
+    def copy(self, deep=True):
+        return self
+
+    @property
+    def empty(self):
+        return CT("empty", CT(f"frame{self._via}"), oracle=self._oracle)
+
+    def _abs_len(self):
+        return CT("len", CT(f"frame{self._via}"), oracle=self._oracle)
 
     def __getattr__(self, name):
         if name.startswith("_"):
@@ -183,7 +225,7 @@ class CFrame(Stub):
 
     @property
     def index(self):
-        return CT("index", oracle=self._oracle)
+        return CT(f"index{self._via}", oracle=self._oracle)
 
 
 class SFrame(Stub):
